@@ -310,6 +310,11 @@ def _prove_instance(obl, case, tier, known_witnesses, timeout_ms=60000):
         res.update(verdict="vacuous", reason="no verification condition generated")
         return res
     res["known_hit"] = known_hit
+    if budget.get("guard_probes", True):
+        try:
+            res["guard_probe_values"] = _guard_probes(paths)
+        except Exception as e:      # noqa: BLE001 - probing is an extra; it must not disturb the verdict
+            res["guard_probe_error"] = f"{type(e).__name__}: {e}"
     # an instance that lies entirely inside a listed known finding is not a discharged obligation
     res["verdict"] = "known" if (known_hit and not outside_feasible) else "proved"
     return res
@@ -341,6 +346,71 @@ def _cover_by_sampling(hyps, inputs, ranges, solved, tries=6, timeout_ms=8000):
         if s.check() == z3.sat:
             return True
     return False
+
+
+def _term_vars(t, acc=None):
+    import z3
+    acc = set() if acc is None else acc
+    todo = [t]
+    seen = set()
+    while todo:
+        e = todo.pop()
+        if e.get_id() in seen:
+            continue
+        seen.add(e.get_id())
+        if z3.is_const(e) and e.decl().kind() == z3.Z3_OP_UNINTERPRETED:
+            acc.add(e.decl().name())
+        todo.extend(e.children())
+    return acc
+
+
+def _guard_probes(paths, max_groups=6):
+    """For the tolerance guards recorded during the symbolic run (idealised to equality in the proof): inputs that lie INSIDE the tolerance
+    without being equal, found by z3 from the contract's precondition alone.  Returns a list of value dicts (declared inputs only)."""
+    import z3
+    out, seen = [], set()
+    for p in paths:
+        if p.value is None:
+            continue
+        pre, inputs = p.value[0], p.value[3]
+        names = set(inputs)
+        for kind, pairs, rtol, atol in p.guards:
+            key = (kind, tuple((a.get_id(), b.get_id()) for a, b in pairs))
+            if key in seen or len(seen) >= max_groups:
+                continue
+            seen.add(key)
+            vs = set()
+            for a, b in pairs:
+                _term_vars(a, vs)
+                _term_vars(b, vs)
+            if not vs or not vs <= names:
+                continue            # the guard depends on dependency results / auxiliary symbols: inputs alone do not steer it
+            R = lambda t: z3.ToReal(t) if t.is_int() else t
+            absd = lambda a, b: z3.If(R(a) - R(b) >= 0, R(a) - R(b), R(b) - R(a))
+            tau = lambda b: z3.RealVal(str(atol)) + z3.RealVal(str(rtol)) * z3.If(R(b) >= 0, R(b), -R(b))
+            inside = [absd(a, b) <= tau(b) / 2 for a, b in pairs]
+            notable = [absd(a, b) >= tau(b) / 4 for a, b in pairs]
+            region = z3.And(z3.And(*inside) if kind == "allclose" else z3.Or(*[z3.And(i, n) for i, n in zip(inside, notable)]), z3.Or(*notable))
+            # relevant part of the precondition: conjuncts sharing variables with the guard (closure)
+            rel, grew = set(vs), True
+            hy = []
+            pre_v = [(h, _term_vars(h)) for h in pre]
+            while grew:
+                grew = False
+                for h, hv in pre_v:
+                    if hv & rel and not hv <= rel:
+                        rel |= hv
+                        grew = True
+            hy = [h for h, hv in pre_v if hv & rel]
+            s = _solver(4000)
+            s.add(*hy)
+            s.add(region)
+            if s.check() != z3.sat:
+                continue
+            m = s.model()
+            vals = _model_values(m, {n: inputs[n] for n in rel if n in inputs})
+            out.append(vals)
+    return out
 
 
 class _Timeout(BaseException):
@@ -429,6 +499,23 @@ def _worker(args):
         except _Timeout as e:
             pr = {"verdict": "undecided", "reason": f"proof {e}"}
         out.update(pr)
+        probes = pr.pop("guard_probe_values", None) or []
+        out.pop("guard_probe_values", None)
+        if probes and not bad:
+            from . import instr
+            instr.restore_all()                       # the probes run on the real, uninstrumented functions
+            pres = []
+            for vals in probes:
+                for rep in range(2):                  # inputs that the guard does not mention are drawn at random
+                    c = _run_conc(obl, case, vals, seed * 31 + rep * 977 + 5, tier, max_tries=1)
+                    pres.append(c)
+                    if c["status"] in ("fail", "raised"):
+                        break
+            out["guard_probes"] = len(pres)
+            conc.extend([c for c in pres if c["status"] != "rejected"])
+            bad = [r for r in pres if r["status"] in ("fail", "raised")]
+            if bad:
+                out["guard_probe_failed"] = True
         wit_b = bad[0].get("witnesses", {}) if bad else {}
         if bad and pr.get("verdict") in ("proved", "known") and any(w == "*" or wit_b.get(w) for w in known_w):
             out["conc_known"] = True
